@@ -565,7 +565,8 @@ func c01Pkg(r *ev.Run, d *C01Data, pc *C01Pkg) error {
 					viol("path-param-resplit-at-template-literal", "a path parameter value containing the literal that follows it in the template arrived re-split: "+dd, map[string]any{"received": Descr(c.params), "difference": dd})
 					continue
 				}
-				if a, b, ok := sentGot(dd); ok && b == strings.Trim(a, " \t") && last != nil && headerCarries(last.RequestBytes, a) {
+				if a, b, ok := sentGot(dd); ok && a != b && (b == strings.Trim(a, " \t") || b == strings.TrimRight(a, " \t") || b == strings.TrimLeft(a, " \t")) && last != nil && headerCarries(last.RequestBytes, a) {
+					// (a member of an exploded/non-exploded object or array loses only the blanks at the end of the field value)
 					viol("header-value-surrounding-whitespace-trimmed", "a header parameter value with leading/trailing blanks arrived trimmed (no error on either side): "+dd, map[string]any{"received": Descr(c.params), "difference": dd})
 					continue
 				}
